@@ -35,7 +35,7 @@ META = dict(
 
 CASCADE = ("S1", "S3", "S1E")
 STEPWISE = ("S2", "S4")
-GENS = ("G1", "G2", "G3", "G4")
+GENS = ("G1", "G2", "G3", "G4", "G5", "G6")
 
 
 def _depth(marker_code):
@@ -184,6 +184,40 @@ def run_shape(cfg, lengths):
                         obs("gen", i, x)
                     return n
                 defer.ensureDeferred(c()).addBoth(done)
+            elif shape in ("G5", "G6"):
+                class SubDeferred(defer.Deferred):
+                    pass
+
+                def fired(i):
+                    """An already-fired Deferred of kind i % 4, and how user code reads i out of its result."""
+                    k = i % 4
+                    if k == 0:
+                        return defer.succeed(i), (lambda r: r)
+                    if k == 1:
+                        return defer.DeferredList([defer.succeed(i)]), (lambda r: r[0][1])
+                    if k == 2:
+                        return defer.gatherResults([defer.succeed(i)]), (lambda r: r[0])
+                    d = SubDeferred()
+                    d.callback(i)
+                    return d, (lambda r: r)
+
+                if shape == "G5":
+                    @defer.inlineCallbacks
+                    def g():
+                        for i in range(1, n + 1):
+                            d, read = fired(i)
+                            x = yield d
+                            obs("gen", i, read(x))
+                        return n
+                    g().addBoth(done)
+                else:
+                    async def c():
+                        for i in range(1, n + 1):
+                            d, read = fired(i)
+                            x = await d
+                            obs("gen", i, read(x))
+                        return n
+                    defer.ensureDeferred(c()).addBoth(done)
             elif shape == "G3":
                 @defer.inlineCallbacks
                 def g():
@@ -319,7 +353,7 @@ def run(ctx):
         else:
             lengths = [7, 10, 100, 1000, 10000]
             # the property: both build orders, ok/failure, generators/coroutines up to 10^5
-            if plain and cfg["shape"] in ("S1", "S2", "G1", "G2", "G3", "G4"):
+            if plain and cfg["shape"] in ("S1", "S2", "G1", "G2", "G3", "G4", "G5", "G6"):
                 lengths.append(100000)
             if key in (("S1", "ok", "both"), ("S2", "err", "both"), ("S1", "err", "post")):
                 lengths.append(100000)
